@@ -425,9 +425,19 @@ def run_history(ctx, case):
         pol = case["policy"]
         if case.get("history"):
             o, m = case["history"][len(r.history)]
+            run.dispatch(o, m)
+        elif case["seed"] % 7 == 3 and not case.get("huge") and rng.random() < 0.5:
+            # this step is played by a rule solver (its own default filters) on the user's dispatcher
+            from ._env_workload import solver_steps
+            n_before = len(r.history)
+            solver_steps(ctx, run, rng, 1, "c11")
+            if len(r.history) != n_before + 1 or getattr(run, "filter_changed_by_solver", False):
+                break
+            o, m = r.history[-1]
+            ctx.count("steps_played_by_a_rule_solver_with_observers_watching")
         else:
             o, m = run.choose(rng, pol if pol != "mixed" else rng.choice(gen.POLICIES))
-        run.dispatch(o, m)
+            run.dispatch(o, m)
         if rng.random() < 0.2 and not run.done() and d.available_operations():
             # rules are clients of the observers too (the observer-based rule shares the subscribed
             # DurationObserver): evaluating one must not change what the observers report
